@@ -6,7 +6,7 @@ for p in sorted(glob.glob('/verif/seeded/C*/meta.json')):
     m=json.load(open(p))
     rows.append(m)
 def esc(s): return str(s).replace('|','\\|').replace('\n',' ')
-rounds={'a':[0,0],'b':[0,0],'c':[0,0],'d':[0,0],'e':[0,0]}
+rounds={'a':[0,0],'b':[0,0],'c':[0,0],'d':[0,0],'e':[0,0],'f':[0,0]}
 for m in rows:
     r=m['id'].split('-')[1][0]
     rounds.setdefault(r,[0,0])
@@ -17,7 +17,7 @@ hdr='''# Independently seeded property-breaking changes
 Each directory holds `patch.diff` (applies to /repo HEAD at the time of writing), the agent's demonstration test, `agent_README.md` and `meta.json`.
 Every change was written by a sub-agent that saw only the property's text and a private worktree, was re-verified by `tools/seedcheck.sh` in a fresh scratch worktree (suite passes with the change; the demonstration fails with it and passes without it) and then run against the property's quick check on /repo (applied, checked, reverted). `tools/reseed_all.sh` re-runs all of them against the current checks.
 '''
-names={'a':'Round 1 (-a)','b':'Round 2 (-b, agents steered towards less obvious areas)','c':'Round 3 (-c, agents pointed at a per-property list of areas, asked for breakages needing two things to coincide)','d':'Round 4 (-d, other areas again; agents asked to avoid the code sites of earlier rounds)','e':'Round 5 (-e, agents given a kind of defect per property and free choice of the code site)'}
+names={'a':'Round 1 (-a)','b':'Round 2 (-b, agents steered towards less obvious areas)','c':'Round 3 (-c, agents pointed at a per-property list of areas, asked for breakages needing two things to coincide)','d':'Round 4 (-d, other areas again; agents asked to avoid the code sites of earlier rounds)','e':'Round 5 (-e, agents given a kind of defect per property and free choice of the code site)','f':'Round 6 (-f, agents asked to write down three candidates in different functions and implement the least obvious one)'}
 for r,(n,c) in rounds.items():
     if n: hdr+=f"{names[r]}: {c} of {n} caught at once, {n-c} after strengthening. "
 hdr+=f"All {len(rows)} are caught by the current checks.\n\n| id | property | change | needs | outcome | now |\n|---|---|---|---|---|---|\n"
